@@ -78,3 +78,15 @@ Proof.
   - intros axes Hax. inversion Hax; subst axes; clear Hax. eexists. split; [vm_compute; reflexivity|].
     intros ax [<-|[]]. eexists; eexists. split; [left; reflexivity | reflexivity].
 Qed.
+
+(* Known finding (KNOWN_FINDINGS.txt, empty-graph-varlength): an EMPTY graph carrying a var-length property is
+   outside wf_input (encodable fails) -- the faithful model raises IndexError, as the code does. *)
+Theorem C01_empty_vlen_refuted :
+  exists g md, snd (run (write_arrays KObj g md true false) None) = Err IndexError /\
+               a_shape (w_nids g) = [0%nat] /\ w_nprops g = Some [("poly", mkprop (PVlen []) None)].
+Proof.
+  exists (mkwg (mkarr DU8 [0%nat] []) (mkarr DU8 [0%nat; 2%nat] []) (Some [("poly", mkprop (PVlen []) None)]) (Some [])),
+         (mkmd true None [] [] 0%Z).
+  vm_compute. repeat split.
+Qed.
+Print Assumptions C01_empty_vlen_refuted.
